@@ -165,8 +165,9 @@ def run_property(prop, module, tier, configs, extra=None):
         print("  %s  %s  [%s] %s" % (o.site or "-", o.fn or "-", o.rule, o.detail))
         print("VIOLATION property=%s replay=%s" % (prop, path))
         rc = 1
-    for k in stale_known:
-        print("note: known finding no longer reported (stale entry): %s" % k)
+    if tier == "thorough":
+        for k in stale_known:
+            print("note: known finding not reported in this run (fixed, or specific to a configuration not analysed): %s" % k)
     by_rule = {}
     for o in obs:
         r = by_rule.setdefault(o.rule, {"statement": ctx.rules.get(o.rule, ""), "instances": 0,
